@@ -249,8 +249,13 @@ class Server:
         self.extra_binds = extra_binds
         self.extra_ports = []
         self.extra_unix_path = os.path.join(self.dir, "g2.sock") if extra_unix else None
+        self.app_in_conf = False          # True: the application is named by wsgi_app in the configuration file, not on the command line
         with open(os.path.join(self.dir, "app.py"), "w") as f:
             f.write(APP_SRC)
+        with open(os.path.join(self.dir, "app2.py"), "w") as f:
+            # a second application: the first one, with one more response header
+            f.write("import app as _base\n\n\ndef app(environ, start_response):\n    def sr(status, headers, exc_info=None):\n"
+                    "        return start_response(status, headers + [('X-App2', '1')], exc_info)\n    return _base.app(environ, sr)\n")
 
     def address(self):
         return self.sockpath if self.bind_kind == "unix" else ("127.0.0.1", self.port)
@@ -283,7 +288,7 @@ class Server:
             env.update(self.env_extra)
             # the console script, not `python -m gunicorn`: on USR2 the master re-executes sys.argv, and with -m that is
             # gunicorn/__main__.py, which puts the package directory (with its own http/ package) first on sys.path
-            self.proc = subprocess.Popen([PY, "/venv/bin/gunicorn", "-c", self.conf, "app:app"], cwd=self.dir, env=env,
+            self.proc = subprocess.Popen([PY, "/venv/bin/gunicorn", "-c", self.conf] + ([] if self.app_in_conf else ["app:app"]), cwd=self.dir, env=env,
                                          stdin=subprocess.DEVNULL, stdout=open(os.path.join(self.dir, "stdout.log"), "ab"),
                                          stderr=subprocess.STDOUT, start_new_session=True)
             self.master_pid = self.proc.pid
